@@ -549,7 +549,9 @@ pub fn check(prop: &'static dyn Prop, opts: CheckOpts) -> i32 {
         if let Some(w) = &k.witness {
             let path = format!("{}/{}", verif_dir(), w);
             match std::fs::read_to_string(&path).ok().and_then(|t| serde_json::from_str::<Value>(&t).ok()) {
-                Some(file) => match pool.eval_cases(&[file["case"].clone()]) {
+                // (witnesses run without the avoid list: where a check goes easy on a listed shape while executing - not
+                // only while generating - the witness must still show the finding)
+                Some(file) => match (Pool { prop, workers: 1, duck: opts.duck.clone(), avoid: vec![] }).eval_cases(&[file["case"].clone()]) {
                     Ok(rs) => {
                         let r = &rs[0];
                         match class_of(r) {
